@@ -20,7 +20,53 @@ SHARDS = {'quick': 4, 'thorough': 16}
 IGNORES = (None, None, ['y'], [0], 'y', 1, ['*'], ['**'], ['*', '**'], [0, '**'], ['x'], ['k'])
 
 
+def _add_introspection(case):
+    # after every call of the hostile-argument histories: lookup() and key() with the same arguments
+    ops = []
+    for op in case['ops']:
+        ops.append(op)
+        if op[0] == 'call':
+            ops.append(['lookup', op[1], op[2] if len(op) > 2 else 0])
+            ops.append(['key', op[1], op[2] if len(op) > 2 else 0])
+    return dict(case, ops=ops, part='unkeyable')
+
+
 def strata(tier):
+    from props import c16
+    # safe decorators with arguments no key can be built for (or whose key is unhashable): key()/lookup() must still never run the function
+    unk = [('unkeyable/' + n, s.map(_add_introspection)) for n, s in c16.hostile_strata(tier)[1::3]]
+    return unk + _strata(tier)
+
+
+def check_unkeyable(case, tr):
+    out = []
+    flags = {'unkeyable_lookup': 0}
+    if tr.setup_exc is not None:
+        return out, flags
+    algo = H.effective_algo(case)
+    for i, s in enumerate(tr.steps):
+        if s.kind not in ('lookup', 'key'):
+            continue
+        if s.evals:
+            out.append(Discrepancy('C18/safe/%s/%s-evaluated-the-function' % (algo, s.kind), 'step %d: %s(*%r, **%r) ran the wrapped function %d time(s)' % (i, s.kind, s.args, s.kwds, s.evals)))
+            return out, flags
+        if s.pre_info is not None and s.post_info is not None and tuple(s.pre_info) != tuple(s.post_info):
+            out.append(Discrepancy('C18/safe/%s/%s-changed-info' % (algo, s.kind), 'step %d: %r -> %r' % (i, s.pre_info, s.post_info)))
+            return out, flags
+        if s.kind == 'lookup':
+            if s.exc is not None and not isinstance(s.exc, KeyError):
+                flags['unkeyable_lookup'] += 1          # no key can be built / hashed: any error is fine, a value is not
+            if s.exc is None:
+                mem = s.pre_mem or {}
+                hit = [k for k in mem if same(mem[k], s.result)]
+                if not hit:
+                    out.append(Discrepancy('C18/safe/%s/lookup-returned-a-value-that-is-not-resident' % algo, 'step %d: lookup(*%r, **%r) -> %r; resident %r' % (
+                        i, s.args, s.kwds, s.result, sorted(map(repr, mem)))))
+                    return out, flags
+    return out, flags
+
+
+def _strata(tier):
     return G.strata_grid(
         maxsizes=(2, 1, 3, None, 0),
         weights={'call': 12, 'burst': 1, 'lookup': 6, 'key': 4, 'load': 1, 'dump': 1, 'clear': 1, 'clearkeep': 0, 'arch_off': 0, 'arch_on': 0,
@@ -159,6 +205,13 @@ def check_twin(case, tr, keep):
 
 
 def run_case(case):
+    if case.get('part') == 'unkeyable':
+        tr = H.run_history(case)
+        discrs, flags = check_unkeyable(case, tr)
+        classes = base_classes(case) + [k for k in flags if flags[k]]
+        km = case.get('keymap')
+        nt = ('unkeyable', case['algo'], case['backend'], km and (km['cls'], km['flat']), len(case['ops'])) if flags['unkeyable_lookup'] else None
+        return discrs, nt, sorted(set(classes))
     tr = H.run_history(case)
     discrs, flags, keep = check(case, tr)
     if not discrs and keep is not None and len(keep) != len(tr.steps):
@@ -172,6 +225,6 @@ def run_case(case):
     return discrs, nt, sorted(set(classes))
 
 
-REQUIRED_CLASSES = ['lookup_resident', 'lookup_missing', 'lookup_then_overflow', 'key_under_ignore_tol', 'storage_key_checked',
+REQUIRED_CLASSES = ['unkeyable_lookup', 'lookup_resident', 'lookup_missing', 'lookup_then_overflow', 'key_under_ignore_tol', 'storage_key_checked',
                     'tol:0', 'tol:1', 'tol:-1', 'ignore:set']
 TRIGGERS = {}
